@@ -274,6 +274,56 @@ def r12_2(ctx):
                 okc = res.get(1) == ('const', 0) and is_call(res.get(0, ('x',)), '::eq') and any(x[0] == 'field' and x[2] == 'node' for x in walk(res[0][2][0]))
             idx = cell[2] if cell[0] == 'index' else None
             ok = okc and idx is not None and any(is_call(x, '::position') for x in walk(idx))
+        if not ok and cell is not None:
+            # the hit test is a local predicate closure called on a cell: is_hit(&cells[k]);  the address may be read after the MRU move
+            def hit_pred(c):
+                cf = lib.fns.get(c[1])
+                if cf is None:
+                    return False
+                res = {}
+                for q in explore(cf, max_visits=1):
+                    if q.end == 'return':
+                        none = [d for d in q.decisions if is_call(d[2], 'RegistryCell::is_none')]
+                        res[none[-1][3] if none else None] = q.ret()
+                return res.get(1) == ('const', 0) and is_call(res.get(0, ('x',)), '::eq') and any(x[0] == 'field' and x[2] == 'node' for x in walk(res[0][2][0]))
+            cd = [d for d in p.decisions if d[2][0] == 'call' and d[3] == 1 and any(x[0] == 'closure' for x in walk(d[2])) and
+                  (isinstance(d[2][1], str) and ('Fn' in d[2][1] or 'call' in d[2][1].rsplit('::', 1)[-1] or '{closure' in d[2][1]))]
+            pdv = [d for d in p.decisions if d[2][0] == 'discr' and is_call(d[2][1], '::position') and d[3] == 1]
+            if cd or pdv:
+                compared = None
+                good_pred = False
+                if cd:
+                    clo = [x for x in walk(cd[-1][2]) if x[0] == 'closure']
+                    good_pred = bool(clo) and hit_pred(clo[0])
+                    ix = [x for x in walk(cd[-1][2]) if x[0] == 'index' and x is not None and (isinstance(x[2], str) or strip(x[2])[0] == 'const')]
+                    if ix:
+                        compared = int(ix[0][2][1:-1]) if isinstance(ix[0][2], str) else strip(ix[0][2])[1]
+                else:
+                    clo = [x for x in walk(pdv[-1][2]) if x[0] == 'closure']
+                    good_pred = bool(clo) and hit_pred(clo[0])
+                    compared = 'pos'
+                # where does the returned cell come from, undoing the MRU moves made before the read?
+                ret_ix = cell[2] if cell[0] == 'index' else None
+                if isinstance(ret_ix, str):
+                    ret_ix = int(ret_ix[1:-1]) if ret_ix[1:-1].isdigit() else None
+                elif ret_ix is not None and strip(ret_ix)[0] == 'const':
+                    ret_ix = strip(ret_ix)[1]
+                else:
+                    ret_ix = None
+                origin = ret_ix
+                for (k, bid, callee, args, t) in reversed(path_calls(p, expand=False)):
+                    if not isinstance(callee, str):
+                        continue
+                    if callee.endswith('::swap') and len(args) == 3 and strip(args[1])[0] == 'const' and strip(args[2])[0] == 'const':
+                        a_, b_ = strip(args[1])[1], strip(args[2])[1]
+                        origin = b_ if origin == a_ else (a_ if origin == b_ else origin)
+                    elif callee.endswith('::promote') and origin == 0:
+                        origin = 'pos' if any(is_call(x, '::position') for x in walk(args[1])) else None
+                if good_pred and compared is not None and origin == compared:
+                    ok = True
+                elif not good_pred or compared is None or origin is None:
+                    ctx.undecided(R, 'hit-condition', 'a hit is decided by a local predicate / the address is read after the MRU move in a form the rule does not follow: %s' % fmt(addr)[:80], fn=f)
+                    continue
         ctx.check(R, ok, 'hit-condition', 'a hit must return the address stored in the very cell that is occupied and whose node equals the probe: %s' % fmt(addr)[:100], fn=f)
     if n == 0:
         ctx.undecided(R, 'hit-condition', 'no hit path recognised', fn=f)
@@ -432,6 +482,28 @@ def r12_5(ctx):
                     v = p.sym.loc_value_at((il[0],), (len(p.blocks) - 2, 'T'))
                     g = [d for d in p.decisions if d[2][0] == 'bin' and d[2][1] == 'Gt' and d[2][3] == ('const', 0)]
                     prom_ok = a[0] == 'bin' and a[1] == 'Sub' and a[3] == ('const', 1) and a[2] == b and b[0] == 'havoc' and v == ('bin', 'Sub', b, ('const', 1)) and bool(g) and g[-1][3] == 1
+        if not prom_ok:
+            # for j in (1..=i).rev() { cells.swap(j - 1, j) }
+            from rules import layout as _layout
+            for p in explore(pr, max_visits=1, havoc=True):
+                if p.end != 'cut':
+                    continue
+                sw = [c for c in path_calls(p) if isinstance(c[2], str) and c[2].endswith('::swap')]
+                src = _layout.iter_source(pr, p.blocks[-1])
+                if len(sw) == 1 and src is not None and src[0] == 'rev':
+                    a, b = strip(sw[0][3][1]), strip(sw[0][3][2])
+                    item = b[0] == 'field' and b[2] == '0' and any(is_call(x, '::next') for x in walk(b))
+                    rg = [x for x in walk(src[2]) if (x[0] == 'agg' and x[1].endswith('ops::RangeInclusive')) or is_call(x, 'RangeInclusive::<Idx>::new')]
+                    okr = False
+                    if rg:
+                        if rg[0][0] == 'agg':
+                            d_ = dict(rg[0][2])
+                            lo_, hi_ = d_.get('start'), d_.get('end')
+                        else:
+                            lo_, hi_ = rg[0][2][0], rg[0][2][1]
+                        okr = lo_ == ('const', 1) and strip(hi_)[0] == 'param'
+                    if item and okr and a[0] == 'bin' and a[1] == 'Sub' and a[3] == ('const', 1) and norm(a[2]) == norm(b):
+                        prom_ok = True
         if not prom_ok:
             # one-call form: cells[..=i].rotate_right(1)  (or cells[..i + 1])
             for p in explore(pr, max_visits=1, havoc=True):
@@ -596,10 +668,7 @@ def r12_7(ctx, A):
             elif e[0] == 'discr' and any(is_call(x, '::position') or is_call(x, '::find') or is_call(x, '::any') for x in walk(e)) and d[3] == 0:
                 whole = True
             elif e[0] == 'call' and e[2]:
-                for a in e[2]:
-                    a = strip(a)
-                    while a[0] == 'field':
-                        a = a[1]
+                for a in walk(e):
                     if a[0] == 'index':
                         i = strip(a[2]) if not isinstance(a[2], str) else None
                         if isinstance(a[2], str) and re.fullmatch(r'\[(\d+)\]', a[2]):
